@@ -110,9 +110,9 @@ theorem fnSim_mapDce {F : GFile} (hok : fileDceOK F = true) : FnSim F (mapDce F)
     rw [hk]; intro hc
     have : (fn.params.map (·.1)).contains "_" = true := by simpa using hc
     rw [this] at hblank; cases hblank
-  -- `dce_preserves_syn` (Props/Dce.lean), applied inside `mapDce F`
-  obtain ⟨m, r', hm, hrel⟩ := (sim_all (F := mapDce F) (P := inertSyn false)
-      (fun e h => inertSyn_sound (mapDce F) e h) m0).bl (D := localsOf fn) (L := [])
+  -- `dce_preserves_syn_field` (Props/Dce.lean), applied inside `mapDce F`
+  obtain ⟨m, r', hm, hrel⟩ := (sim_all (F := mapDce F) (P := inertSyn true)
+      (fun e h => inertSyn_sound_field (mapDce F) e h) m0).bl (D := localsOf fn) (L := [])
     (by rw [hk]; exact hscope) hshape hsem (rel_refl _ _ (bindG fn.params args) hb) (e0 m0 (Nat.le_refl _)) hdef
   change execBlockG m (mapDce F) (bindG fn.params args) w (dceBody fn.body) = r' at hm
   have hd' : Definite r' := hrel.definite hdef
